@@ -6,6 +6,7 @@ import (
 	"os"
 	"path/filepath"
 	"strings"
+	"syscall"
 	"testing"
 
 	wt "github.com/hnakamur/whispertool"
@@ -23,7 +24,7 @@ type C16Case struct {
 	From      int64       `json:"from"`
 	Until     int64       `json:"until"`
 	ArchiveID int         `json:"archive_id"`
-	Fault     string      `json:"fault"` // none textout-nodir textout-isdir textout-devfull missing-src corrupt-src corrupt-dest dest-notdir dest-proc
+	Fault     string      `json:"fault"` // none textout-nodir textout-isdir textout-devfull missing-src corrupt-src corrupt-dest dest-notdir dest-proc dest-readonly
 	Corrupt   []byte      `json:"corrupt,omitempty"`
 	CopyNaN   bool        `json:"copy_nan"`
 	Header    bool        `json:"header"`
@@ -141,7 +142,37 @@ func runC16(c C16Case, ev *Evid) (fs []Finding) {
 		case "generate":
 			cc = &cmd.GenerateCommand{Dest: filepath.Join(effDest, "gen.wsp"), Perm: 0644, AggregationMethod: wt.AggregationMethod(l.Method), XFilesFactor: l.XFF, ArchiveInfoList: wtArchives(l), RandMax: 10, Fill: c.Fill, TextOut: to}
 		}
+		asNobody := destFault && c.Fault == "dest-readonly" && os.Geteuid() == 0
+		if asNobody {
+			// the checks run as root, for whom nothing is read-only: the destination tree is made read-only
+			// and the command is executed with the effective uid of "nobody" (restored right afterwards)
+			os.Chmod(dir, 0755)
+			filepath.Walk(destBase, func(p string, info os.FileInfo, err error) error {
+				if err == nil {
+					if info.IsDir() {
+						os.Chmod(p, 0555)
+					} else {
+						os.Chmod(p, 0444)
+					}
+				}
+				return nil
+			})
+			os.MkdirAll(filepath.Dir(to), 0777)
+			os.Chmod(filepath.Dir(to), 0777)
+			if e := syscall.Seteuid(65534); e != nil {
+				asNobody = false
+			}
+		}
 		err, pm := runCommand(now, cc)
+		if asNobody {
+			syscall.Seteuid(0)
+			filepath.Walk(destBase, func(p string, info os.FileInfo, err error) error {
+				if err == nil {
+					os.Chmod(p, 0755)
+				}
+				return nil
+			})
+		}
 		if pm != "" {
 			add("panic", "%s (%s run) now=%d from=%d until=%d archive=%d fault=%s dest=%s layout=%s: panicked: %s", c.Cmd, tag, now, c.From, c.Until, c.ArchiveID, c.Fault, c.DestMode, l, pm)
 			return runResult{}, false
@@ -327,6 +358,9 @@ func runC16(c C16Case, ev *Evid) (fs []Finding) {
 	// ---- (2) the faulty run
 	if textFault || destFault {
 		tf := regular
+		if c.Fault == "dest-readonly" {
+			tf = func(d string) string { return filepath.Join(d+".w", "out.txt") }
+		}
 		switch c.Fault {
 		case "textout-nodir":
 			tf = func(d string) string { return filepath.Join(d, "no", "such", "dir", "out.txt") }
@@ -347,6 +381,10 @@ func runC16(c C16Case, ev *Evid) (fs []Finding) {
 			case c.Fault == "textout-devfull" && len(base.out) > 0 && base.err == nil:
 				add("silent-success", "%s: %d bytes of text output could not be written (device full) but the command reported success", desc, len(base.out))
 				return
+			case c.Fault == "dest-readonly" && os.Geteuid() != 0:
+				// cannot lower privileges: nothing to assert
+			case c.Fault == "dest-readonly" && (c.Cmd == "copy" || c.Cmd == "sum-copy") && base.err == nil && c.DestMode == "same":
+				// destination identical to the source / the sum: nothing has to be written, success is legitimate
 			case destFault && (c.Cmd == "copy" || c.Cmd == "sum-copy" || c.Cmd == "generate") && base.err == nil:
 				add("silent-success", "%s: the destination cannot be created but the command reported success", desc)
 				return
@@ -395,7 +433,7 @@ func genC16(t *rapid.T) C16Case {
 	case r < 6:
 		c.ArchiveID = rapid.SampledFrom([]int{len(l.Archives), len(l.Archives) + 1, -2, 100}).Draw(t, "badArchive")
 	}
-	c.Fault = rapid.SampledFrom([]string{"none", "none", "none", "textout-nodir", "textout-isdir", "textout-devfull", "missing-src", "corrupt-src", "corrupt-dest", "dest-notdir", "dest-proc"}).Draw(t, "fault")
+	c.Fault = rapid.SampledFrom([]string{"none", "none", "none", "textout-nodir", "textout-isdir", "textout-devfull", "missing-src", "corrupt-src", "corrupt-dest", "dest-notdir", "dest-proc", "dest-readonly"}).Draw(t, "fault")
 	if c.Fault == "corrupt-dest" && rapid.Bool().Draw(t, "methodOnly") {
 		c.Corrupt = []byte{0, 0, 0, byte(rapid.SampledFrom([]int{0, 7, 8, 9, 255}).Draw(t, "badMethod"))}
 	} else if c.Fault == "corrupt-src" || c.Fault == "corrupt-dest" {
@@ -403,11 +441,12 @@ func genC16(t *rapid.T) C16Case {
 		if rapid.Bool().Draw(t, "garbage") {
 			c.Corrupt = rapid.SliceOfN(rapid.Byte(), 0, 60).Draw(t, "garbageBytes")
 		}
-		if rapid.IntRange(0, 3).Draw(t, "bigCount") == 0 {
+		bigCount := rapid.IntRange(0, 3).Draw(t, "bigCount") == 0
+		if bigCount {
 			c.Corrupt = genBigCountFile(t)
 		}
 		// a mutation may leave the file valid: force damage in the header
-		if len(c.Corrupt) >= 4 && len(c.Corrupt) < 3000 {
+		if len(c.Corrupt) >= 4 && !bigCount {
 			c.Corrupt[3] = 0x7f
 		}
 	}
@@ -422,8 +461,8 @@ func TestC16(t *testing.T) {
 	RunProperty(t, Property[C16Case]{
 		NoteCases:   true,
 		ID:          "C16",
-		Rule:        "rapid-generated invocations of all eight subcommands x archive selection (all / each id / out of range) x window (default, narrow, past, future, beyond the finest retention, degenerate) x copy-nan / header / sort / fill x destination absent / identical / perturbed x environment fault (none, text-out below a missing directory, text-out = a directory, text-out = /dev/full, source missing, source corrupt, destination base below a regular file, destination base under /proc), at a controlled clock. Each case runs a baseline (no text-out / destination fault) and, for those faults, the faulty run. Oracle: no panic escapes Execute; a nil return of the baseline implies the effect (view/sum: the expected point records; view-raw: all physical slots for the default range; copy/sum-copy: destination holds the source's / the sum's values; diff/sum-diff: no differing slot exists; generate: file with the requested header) and is impossible with an out-of-range archive id or a missing/corrupt source; the faulty run must fail when the text output cannot be opened, when a non-empty output cannot be written, or when the destination cannot be created. Non-trivial: a fault or a non-default selection/window is present. Distinct = hash of the case.",
-		Assumptions: []string{"checks run as root: permission-based faults are replaced by ENOTDIR / EISDIR / /proc / /dev/full"},
+		Rule:        "rapid-generated invocations of all eight subcommands x archive selection (all / each id / out of range) x window (default, narrow, past, future, beyond the finest retention, degenerate) x copy-nan / header / sort / fill x destination absent / identical / perturbed x environment fault (none, text-out below a missing directory, text-out = a directory, text-out = /dev/full, source missing, source corrupt, destination base below a regular file, destination base under /proc, read-only destination tree with the command run under the effective uid of 'nobody'), at a controlled clock. Each case runs a baseline (no text-out / destination fault) and, for those faults, the faulty run. Oracle: no panic escapes Execute; a nil return of the baseline implies the effect (view/sum: the expected point records; view-raw: all physical slots for the default range; copy/sum-copy: destination holds the source's / the sum's values; diff/sum-diff: no differing slot exists; generate: file with the requested header) and is impossible with an out-of-range archive id or a missing/corrupt source; the faulty run must fail when the text output cannot be opened, when a non-empty output cannot be written, or when the destination cannot be created. Non-trivial: a fault or a non-default selection/window is present. Distinct = hash of the case.",
+		Assumptions: []string{"checks run as root: permission faults are produced by ENOTDIR / EISDIR / /proc / /dev/full, and by temporarily switching the effective uid to 65534 for the read-only destination"},
 		Gen:         genC16,
 		Run:         runC16,
 	})
